@@ -201,8 +201,20 @@ proof fn thm_val(u: J, s: Strat, p: J, ds: DS, off: int, dm: DM, seen: SS)
             thm_arr(a, s, pa, ds, off, dm, seen, a.len());
             assert(pa.take(pa.len() as int) =~= pa);
         }
-        J::Obj(m) => {
-            let pm = p->Obj_0;
+        J::Obj(m) => { thm_obj(m, s, p->Obj_0, ds, off, dm, seen); }
+        _ => {}
+    }
+}
+proof fn thm_obj(m: Seq<(Seq<char>, J)>, s: Strat, pm: Seq<(Seq<char>, J)>, ds: DS, off: int, dm: DM, seen: SS)
+    requires enc(J::Obj(m), s, J::Obj(pm), ds, off), sep(J::Obj(m), s, J::Obj(pm), ds, off), wf_j(J::Obj(m)), !has_reserved(J::Obj(m)), off >= 0, off + hcount(J::Obj(m), s) <= ds.len(),
+        genuine(dm, ds), distinct_hashes(ds), no_decoy_clash(ds),
+        forall|x: Dig| occ(J::Obj(m), s, J::Obj(pm), ds, off).contains(x) ==> !seen.contains(x),
+    ensures u_val(J::Obj(pm), dm, seen) matches UR::Ok(v, c) && is_view(v, J::Obj(m), s, ds, off, dm) && c.subset_of(occ(J::Obj(m), s, J::Obj(pm), ds, off))
+    decreases m, pm.len() + sd_strs(pm).len() + 2
+{
+    hide(sd_spec); hide(next_spec);
+    let u = J::Obj(m);
+    let p = J::Obj(pm);
             let sdl = sd_strs(pm);
             assert(obj_ctx(m, s, pm, ds, off, dm));
             let om = occ_members(m, s, pm, ds, off, m.len());
@@ -293,9 +305,6 @@ proof fn thm_val(u: J, s: Strat, p: J, ds: DS, off: int, dm: DM, seen: SS)
                 }
             }
         }
-        _ => {}
-    }
-}
 proof fn thm_arr(a: Seq<J>, s: Strat, pa: Seq<J>, ds: DS, off: int, dm: DM, seen: SS, n: nat)
     requires n <= a.len(), pa.len() == a.len(), enc_arr(a, s, pa, ds, off, n), sep_arr(a, s, pa, ds, off, n),
         wf_seq(a), !has_reserved_seq(a), off >= 0, off + hcount_arr(a, s, n) <= ds.len(),
@@ -304,6 +313,7 @@ proof fn thm_arr(a: Seq<J>, s: Strat, pa: Seq<J>, ds: DS, off: int, dm: DM, seen
     ensures u_arr(pa.take(n as int), dm, seen) matches UR::Ok(out, c) && is_view_arr(out, a, s, ds, off, dm, n) && c.subset_of(occ_arr(a, s, pa, ds, off, n))
     decreases a, n + 1
 {
+    hide(sd_spec); hide(next_spec);
     if n == 0 {
         assert(pa.take(0) =~= Seq::<J>::empty());
     } else {
@@ -425,6 +435,7 @@ proof fn thm_members(m: Seq<(Seq<char>, J)>, s: Strat, pm: Seq<(Seq<char>, J)>, 
     ensures u_members(pm.take(n as int), dm, seen) matches UR::Ok(out, c) && mem_inv(out, c, m, s, pm, ds, off, dm, n as int)
     decreases m, n + 1
 {
+    hide(sd_spec); hide(next_spec);
     if n == 0 {
         assert(pm.take(0) =~= Seq::<(Seq<char>, J)>::empty());
         let out = Seq::<(Seq<char>, J)>::empty();
@@ -549,6 +560,7 @@ proof fn thm_digests(m: Seq<(Seq<char>, J)>, s: Strat, pm: Seq<(Seq<char>, J)>, 
         && dig_inv(out, c, out0, m, s, pm, sd_strs(pm), ds, off, dm, n as int)
     decreases m, n + 1
 {
+    hide(sd_spec); hide(next_spec);
     let sdl = sd_strs(pm);
     if n == 0 {
         assert(sdl.take(0) =~= Seq::<J>::empty());
